@@ -220,8 +220,8 @@ def _compare(rec, rr):
         return True, ""
     if rr["status"] == "exception":
         return False, f"concrete raised {rr['exc']}: {rr.get('detail')}"
-    sp = [(lab, val) for lab, val in rec["proved"]]
-    cp = rr["proved"]
+    sp = [(lab, val) for lab, val in rec["proved"] if not lab.startswith(("conc:", "sym:"))]
+    cp = [(lab, val) for lab, val in rr["proved"] if not lab.startswith(("conc:", "sym:"))]
     # the concrete run stops at the first failed obligation; compare the common prefix
     for (ls, vs), (lc, vc) in zip(sp, cp):
         if ls != lc:
